@@ -21,13 +21,13 @@ type invokeSpec func(e *Engine, s *State, x ssa.CallInstruction, recv Value, arg
 var externTable map[string]externSpec
 var invokeTable map[string]invokeSpec
 var externWriteTable = map[string][]string{
-	"(*strings.Builder).WriteString": {"strings.Builder"},
-	"(*strings.Builder).WriteByte":   {"strings.Builder"},
-	"(*strings.Builder).WriteRune":   {"strings.Builder"},
-	"(*bytes.Buffer).WriteString":    {"bytes.Buffer"},
-	"(*bytes.Buffer).Write":          {"bytes.Buffer"},
-	"(*html/template.Template).Execute": {"bytes.Buffer"},
-	"sort.Strings":                   {"elem(string)"},
+	"(*strings.Builder).WriteString":               {"strings.Builder"},
+	"(*strings.Builder).WriteByte":                 {"strings.Builder"},
+	"(*strings.Builder).WriteRune":                 {"strings.Builder"},
+	"(*bytes.Buffer).WriteString":                  {"bytes.Buffer"},
+	"(*bytes.Buffer).Write":                        {"bytes.Buffer"},
+	"(*html/template.Template).Execute":            {"bytes.Buffer"},
+	"sort.Strings":                                 {"elem(string)"},
 	"(*" + grammarPkg + ".PacketDslParser).Packet": {"parser.SyntaxErrorListener.Errors"},
 }
 
@@ -825,7 +825,6 @@ func (e *Engine) bytesContent(s *State, sl Value) *Term {
 	c := s.sel("bytesof", SStr, []*Term{sl[0]})
 	return c
 }
-
 
 var reTmplAction = regexp.MustCompile(`\{\{\s*((?:\.[A-Za-z_][A-Za-z0-9_]*)+)\s*\}\}`)
 
